@@ -243,6 +243,22 @@ def check_case(case, rec, lib, sp=None):
     o = boundary.call(lib, A.verify_signable, env, dup_auth, kcount)
     if not o.accepted:
         rec.violation(boundary.mechanism("roundtrip", "verify_signable", "accept[t=k, duplicated key list]", o), "duplicates in the key list made a sufficient envelope fail", case)
+    # the signature map is not signed: anyone can file verbatim copies of the signers' entries under other labels - other spellings
+    # and abbreviations of the signers' own keys.  However many labels, the number of signers is what it was
+    e6 = {"signed": copy.deepcopy(env["signed"]), "signatures": copy.deepcopy(env["signatures"])}
+    for k in ks:
+        for sp_ in rng.sample(gkeys.respellings(k.hex), rng.randint(1, 5)):
+            e6["signatures"].setdefault(sp_, copy.deepcopy(env["signatures"].get(k.hex)))
+    items6 = list(e6["signatures"].items())
+    rng.shuffle(items6)
+    e6["signatures"] = dict(items6)
+    o = boundary.call(lib, A.verify_signable, e6, auth, kcount + 1)
+    rec.count("threshold_checks")
+    rec.count("relabelled_copy_checks")
+    if o.accepted:
+        rec.violation("roundtrip/verify_signable/accepts-above-signer-count-with-relabelled-copies",
+                      "%d signers, their entries copied under other labels of the same keys, threshold %d accepted" % (kcount, kcount + 1),
+                      dict(case, relabelled=sorted(set(e6["signatures"]) - set(env["signatures"]))))
     # single-key authorized subsets
     one = rng.choice(ks)
     o = boundary.call(lib, A.verify_signable, env, [one.hex], 1)
